@@ -17,8 +17,9 @@ sys.path.insert(0, '.')
 from vlib import props
 for fam in props.QUICK_FAMILIES:
     props.build_family(fam, "quick")
-# the Miri build of the C19 race harness (engines/race), run once
-r = props.race_part("C19")
-print("race harness under miri:", "ok" if r["violation_total"] == 0 else r["violations"][0]["desc"])
+# the Miri builds of the race harnesses (engines/race), run once
+for b in ("idx", "par"):
+    r = props.race_part("C19" if b == "idx" else "C02", b)
+    print("race harness %s under miri:" % b, "ok" if r["violation_total"] == 0 else r["violations"][0]["desc"])
 PY
 echo "setup ok"
